@@ -920,12 +920,62 @@ Proof.
   - simpl. destruct x; [|reflexivity]. simpl. destruct l; reflexivity.
 Qed.
 
+(* ---- sample_request on a class template: fails exactly for the {key} shorthand ---- *)
+Lemma cut_at_hit c : forall a b, contains c a = false -> cut_at c (a ++ String c b) = Some (a, b).
+Proof.
+  induction a as [|x a IH]; intros b H; simpl.
+  - now rewrite Ascii.eqb_refl.
+  - simpl in H. apply orb_false_iff in H as [Hx Ha]. rewrite Hx. now rewrite (IH b Ha).
+Qed.
+
+Definition lead (c : ascii) (P : list string) : string :=
+  match P with [] => "" | x :: P' => x ++ tails c P' ++ s1 c end.
+
+Lemma joinc_mid c P N Q : joinc c (P ++ N :: Q)%list = lead c P ++ N ++ tails c Q.
+Proof.
+  destruct P as [|x P]; [reflexivity|]. simpl. rewrite tails_app. simpl. now rewrite !sapp_assoc.
+Qed.
+
+Lemma lead_no c d P : Ascii.eqb c d = false -> Forall (fun x => contains d x = false) P -> contains d (lead c P) = false.
+Proof.
+  intros Hcd H. destruct P as [|x P]; [reflexivity|]. inversion H; subst. simpl.
+  rewrite !contains_app. rewrite H2. rewrite (contains_tails c d P Hcd H3). simpl. now rewrite Hcd.
+Qed.
+
+Lemma sample_ok_class t : aip_class t = true -> sample_request_ok (tmpl_print t) = negb (t_short t).
+Proof.
+  intro Hc. unfold aip_class in Hc. repeat (apply andb_true_iff in Hc as [Hc ?]).
+  rename H into Hshape, H0 into Hpre_nd, H1 into Hshort, H2 into Hne, H3 into Hkey, H4 into Hokpost, H5 into Hoksub.
+  rename Hc into Hokpre. pose proof (is_ident_word _ Hkey) as Hw.
+  set (A := lead slash (map pseg (t_pre t))).
+  assert (HAl : contains lbrace A = false) by (apply lead_no; [reflexivity|apply psegs_no; [exact Hokpre|tauto]]).
+  assert (HAr : contains rbrace A = false) by (apply lead_no; [reflexivity|apply psegs_no; [exact Hokpre|tauto]]).
+  set (B := if t_short t then t_key t else t_key t ++ "=" ++ joinc slash (map pseg (t_sub t))).
+  assert (HN : named_str t = String lbrace (B ++ String rbrace "")).
+  { unfold named_str, B. destruct (t_short t); simpl; [reflexivity|]. now rewrite !sapp_assoc. }
+  assert (HBr : contains rbrace B = false).
+  { unfold B. destruct (t_short t); [apply word_no; [exact Hw|tauto]|].
+    rewrite contains_app. rewrite (word_no rbrace _ Hw) by tauto. simpl.
+    apply contains_joinc; [reflexivity|]. apply psegs_no; [exact Hoksub|tauto]. }
+  assert (HBe : contains eqc B = negb (t_short t)).
+  { unfold B. destruct (t_short t); [apply word_no; [exact Hw|tauto]|].
+    change (t_key t ++ "=" ++ joinc slash (map pseg (t_sub t))) with (t_key t ++ String eqc (joinc slash (map pseg (t_sub t)))).
+    apply contains_mid. }
+  unfold tmpl_print. rewrite joinc_mid. fold A. rewrite HN.
+  unfold sample_request_ok.
+  change (A ++ String lbrace (B ++ String rbrace "") ++ tails slash (map pseg (t_post t)))
+    with (A ++ String lbrace ((B ++ String rbrace "") ++ tails slash (map pseg (t_post t)))).
+  rewrite (cut_at_hit lbrace A _ HAl). rewrite HAr.
+  rewrite sapp_assoc. cbn [append]. rewrite (cut_at_hit rbrace B _ HBr). exact HBe.
+Qed.
+
 (* ---- the main statement ---- *)
 Lemma routing_contribution_correct_l : forall (t : tmpl) (field v : string),
   aip_class t = true -> nl_free v = true ->
   contribution {| p_field := field; p_template := tmpl_print t |} v = Ok (aip_contribution t v) /\
   emit_param {| p_field := field; p_template := tmpl_print t |} =
-    (if repr_fits ("^" ++ rx_print (rx_of t) ++ "$")
+    (if t_short t then Err EValue
+     else if repr_fits ("^" ++ rx_print (rx_of t) ++ "$")
      then Ok (BRegex ("^" ++ rx_print (rx_of t) ++ "$") (disambiguated field) (t_key t)) else Err ETrunc).
 Proof.
   intros t field v Hc Hn. split.
@@ -933,5 +983,347 @@ Proof.
     rewrite first_group_class. rewrite <- (sem_equiv t v Hc Hn). unfold contrib_of.
     destruct (rx_match (rx_of t) v) as [[cap|]|]; reflexivity.
   - unfold emit_param. cbn [p_template p_field]. rewrite print_nonempty. rewrite (convert_class t Hc).
+    rewrite (sample_ok_class t Hc). rewrite negb_involutive.
     unfold key_of. rewrite first_group_class. reflexivity.
+Qed.
+
+(* ---- outside the class / outside the value domain: the statement fails (witnesses) ---- *)
+Definition t_dstar_only : tmpl := {| t_pre := []; t_key := "k"; t_short := false; t_sub := [SDstar]; t_post := [] |}.
+Definition v_inner_nl : string := "a" ++ s1 nl ++ "b".
+Definition v_final_nl : string := "a" ++ s1 nl.
+
+Lemma newline_refuted_l :
+  exists t v, aip_class t = true /\ nl_free v = false /\
+    contribution {| p_field := "f"; p_template := tmpl_print t |} v <> Ok (aip_contribution t v).
+Proof. exists t_dstar_only, v_inner_nl. vm_compute. repeat split; discriminate. Qed.
+
+Lemma newline_final_refuted_l :
+  contribution {| p_field := "f"; p_template := tmpl_print t_dstar_only |} v_final_nl = Ok (Some ("k", "a")) /\
+  aip_contribution t_dstar_only v_final_nl = Some ("k", v_final_nl).
+Proof. vm_compute. split; reflexivity. Qed.
+
+Definition t_dotted : tmpl := {| t_pre := [SLit "a.b"]; t_key := "k"; t_short := false; t_sub := [SStar]; t_post := [] |}.
+Lemma unescaped_literal_refuted_l :
+  exists t v, nl_free v = true /\ tmpl_print t = "a.b/{k=*}" /\
+    contribution {| p_field := "f"; p_template := tmpl_print t |} v = Ok (Some ("k", "c")) /\
+    aip_contribution t v = None.
+Proof. exists t_dotted, "aXb/c". vm_compute. repeat split; reflexivity. Qed.
+
+Definition t_dstar_inside : tmpl := {| t_pre := []; t_key := "k"; t_short := false; t_sub := [SDstar; SLit "x"]; t_post := [] |}.
+Lemma dstar_inside_refuted_l :
+  exists t v, nl_free v = true /\ tmpl_print t = "{k=**/x}" /\
+    contribution {| p_field := "f"; p_template := tmpl_print t |} v = Ok None /\
+    aip_contribution t v = Some ("k", "x").
+Proof. exists t_dstar_inside, "x". vm_compute. repeat split; reflexivity. Qed.
+
+(* ================================================================ the dict: last wins, empty iff nothing matched *)
+Lemma assoc_dict_set k k' v : forall d,
+  assoc k (dict_set k' v d) = if String.eqb k k' then Some v else assoc k d.
+Proof.
+  induction d as [|[a b] d IH]; simpl.
+  - reflexivity.
+  - destruct (String.eqb k' a) eqn:E.
+    + apply String.eqb_eq in E. subst a. simpl. now destruct (String.eqb k k').
+    + simpl. destruct (String.eqb k a) eqn:E2.
+      * destruct (String.eqb k k') eqn:E3; [|reflexivity].
+        apply String.eqb_eq in E2, E3. subst. rewrite String.eqb_refl in E. discriminate.
+      * exact IH.
+Qed.
+
+Lemma assoc_app {A} k (a b : list (string * A)) :
+  assoc k (a ++ b)%list = match assoc k a with Some v => Some v | None => assoc k b end.
+Proof.
+  induction a as [|[x y] a IH]; simpl; [reflexivity|]. destruct (String.eqb k x); [reflexivity|exact IH].
+Qed.
+
+Lemma assoc_fold k : forall l d,
+  assoc k (fold_left (fun d kv => dict_set (fst kv) (snd kv) d) l d) =
+  match assoc k (rev l) with Some v => Some v | None => assoc k d end.
+Proof.
+  induction l as [|[a b] l IH]; intro d; simpl; [reflexivity|].
+  rewrite IH. rewrite assoc_app. destruct (assoc k (rev l)); [reflexivity|].
+  simpl. rewrite assoc_dict_set. now destruct (String.eqb k a).
+Qed.
+
+Lemma last_wins_l (l : list (string * string)) k : assoc k (dict_of l) = assoc k (rev l).
+Proof. unfold dict_of. rewrite assoc_fold. now destruct (assoc k (rev l)). Qed.
+
+Lemma dict_set_nonempty k v d : dict_set k v d <> [].
+Proof. destruct d as [|[a b] d]; simpl; [discriminate|]. destruct (String.eqb k a); discriminate. Qed.
+
+Lemma fold_nonempty : forall l d, d <> [] -> fold_left (fun d kv => dict_set (fst kv) (snd kv) d) l d <> [].
+Proof. induction l as [|x l IH]; intros d H; simpl; [exact H|]. apply IH. apply dict_set_nonempty. Qed.
+
+Lemma dict_of_nil l : dict_of l = [] <-> l = [].
+Proof.
+  split; intro H; [|subst; reflexivity].
+  destruct l as [|x l]; [reflexivity|]. exfalso. unfold dict_of in H. simpl in H.
+  revert H. apply fold_nonempty. discriminate.
+Qed.
+
+Lemma somes_nil {A} (l : list (option A)) : somes l = [] <-> Forall (fun c => c = None) l.
+Proof.
+  induction l as [|[a|] l IH]; simpl.
+  - split; [constructor|reflexivity].
+  - split; [discriminate|]. intro H. inversion H; discriminate.
+  - split; intro H.
+    + constructor; [reflexivity|now apply IH].
+    + inversion H; subst. now apply IH.
+Qed.
+
+Definition contributions (ps : list param) (req : request) : res (list (option (string * string))) :=
+  map_res (fun p => contribution p (req (disambiguated (p_field p)))) ps.
+
+Lemma header_explicit m ps req cs bs :
+  m_explicit m = Some ps -> m_client_streaming m = false -> emit_metadata m = Ok (EExplicit bs) ->
+  contributions ps req = Ok cs ->
+  header_of m req = Ok (match dict_of (somes cs) with [] => None | d => Some (to_routing_header d) end).
+Proof.
+  intros He Hs Hem Hc. unfold header_of. rewrite Hem, He, Hs. unfold contributions in Hc. rewrite Hc.
+  destruct (dict_of (somes cs)); reflexivity.
+Qed.
+
+Lemma no_match_no_header_l m ps req cs bs :
+  m_explicit m = Some ps -> m_client_streaming m = false -> emit_metadata m = Ok (EExplicit bs) ->
+  contributions ps req = Ok cs ->
+  (header_of m req = Ok None <-> Forall (fun c => c = None) cs).
+Proof.
+  intros He Hs Hem Hc. rewrite (header_explicit m ps req cs bs He Hs Hem Hc).
+  rewrite <- somes_nil. rewrite <- dict_of_nil.
+  destruct (dict_of (somes cs)) eqn:E; split; intro H; try reflexivity; try discriminate.
+Qed.
+
+Lemma last_wins_header m ps req cs bs :
+  m_explicit m = Some ps -> m_client_streaming m = false -> emit_metadata m = Ok (EExplicit bs) ->
+  contributions ps req = Ok cs ->
+  forall k, exists d, (header_of m req = Ok (match d with [] => None | _ => Some (to_routing_header d) end)) /\
+                      assoc k d = assoc k (rev (somes cs)).
+Proof.
+  intros He Hs Hem Hc k. exists (dict_of (somes cs)). split; [|apply last_wins_l].
+  rewrite (header_explicit m ps req cs bs He Hs Hem Hc). now destruct (dict_of (somes cs)).
+Qed.
+
+(* ================================================================ implicit routing *)
+Lemma scan_skip : forall a b, scan_aux (String.length a) (a ++ b) = scan_aux 0 b.
+Proof. induction a as [|x a IH]; intro b; [reflexivity|]. simpl. apply IH. Qed.
+
+Lemma scan_lit : forall t b, contains lbrace t = false -> scan_aux 0 (t ++ b) = scan_aux 0 b.
+Proof.
+  induction t as [|x t IH]; intros b H; [reflexivity|].
+  simpl in H. apply orb_false_iff in H as [Hx Ht]. simpl. rewrite Hx. now apply IH.
+Qed.
+
+Lemma lazy_until_var c : (c = eqc \/ c = rbrace) -> forall f r, sall path_char f = true ->
+  lazy_until (f ++ String c r) = Some (f, r).
+Proof.
+  intros Hc. induction f as [|a f IH]; intros r H.
+  - simpl. destruct Hc as [-> | ->]; reflexivity.
+  - simpl in H. apply andb_true_iff in H as [Ha Hf]. unfold path_char in Ha.
+    apply andb_true_iff in Ha as [Ha Ha3]. apply andb_true_iff in Ha as [Ha1 Ha2].
+    apply negb_true_iff in Ha1, Ha2, Ha3. simpl. rewrite Ha1, Ha2, Ha3. simpl. now rewrite (IH r Hf).
+Qed.
+
+Lemma pat_no_lbrace p : sall pat_char p = true -> contains lbrace p = false.
+Proof.
+  induction p as [|a p IH]; simpl; intro H; [reflexivity|].
+  apply andb_true_iff in H as [Ha Hp]. unfold pat_char in Ha. apply andb_true_iff in Ha as [Ha _].
+  apply negb_true_iff in Ha. rewrite Ha. simpl. auto.
+Qed.
+
+Lemma scan_uri : forall u, uri_ok u = true -> scan_vars (uri_print u) = uri_vars u.
+Proof.
+  unfold scan_vars, uri_print. induction u as [|p u IH]; intro H; [reflexivity|].
+  simpl in H. apply andb_true_iff in H as [Hp Hu]. specialize (IH Hu).
+  destruct p as [t|f [pat|]]; cbn [map sconcat upart_print uri_vars].
+  - simpl in Hp. apply negb_true_iff in Hp. rewrite (scan_lit t _ Hp). exact IH.
+  - simpl in Hp. apply andb_true_iff in Hp as [Hf Hpat].
+    change (("{" ++ f ++ "=" ++ pat ++ "}") ++ sconcat (map upart_print u))
+      with (String lbrace ((f ++ String eqc (pat ++ "}")) ++ sconcat (map upart_print u))).
+    rewrite sapp_assoc. cbn [append]. rewrite sapp_assoc.
+    cbn [scan_aux]. rewrite Ascii.eqb_refl.
+    rewrite (lazy_until_var eqc (or_introl eq_refl) f _ Hf). f_equal.
+    change (f ++ String eqc (pat ++ "}" ++ sconcat (map upart_print u)))
+      with (f ++ (String eqc "" ++ (pat ++ "}" ++ sconcat (map upart_print u)))).
+    rewrite <- sapp_assoc.
+    replace (S (String.length f)) with (String.length (f ++ String eqc "")) by (rewrite slen_app; simpl; lia).
+    rewrite scan_skip. rewrite (scan_lit pat _ (pat_no_lbrace pat Hpat)). simpl. exact IH.
+  - simpl in Hp.
+    change (("{" ++ f ++ "}") ++ sconcat (map upart_print u))
+      with (String lbrace ((f ++ String rbrace "") ++ sconcat (map upart_print u))).
+    rewrite sapp_assoc. cbn [append].
+    cbn [scan_aux]. rewrite Ascii.eqb_refl.
+    rewrite (lazy_until_var rbrace (or_intror eq_refl) f _ Hp). f_equal.
+    change (f ++ String rbrace (sconcat (map upart_print u)))
+      with (f ++ (String rbrace "" ++ sconcat (map upart_print u))).
+    rewrite <- sapp_assoc.
+    replace (S (String.length f)) with (String.length (f ++ String rbrace "")) by (rewrite slen_app; simpl; lia).
+    rewrite scan_skip. exact IH.
+Qed.
+
+(* finite fact about the regenerated list: no reserved name contains a dot *)
+Lemma reserved_no_dot : forallb (fun n => negb (contains dot n)) Gen.RoutingGen.RESERVED_NAMES = true.
+Proof. vm_compute. reflexivity. Qed.
+
+Lemma suffix_no_dot c : contains dot c = false -> contains dot (suffix_reserved c) = false.
+Proof.
+  intro H. unfold suffix_reserved. destruct (reserved c); [|exact H]. rewrite contains_app, H. reflexivity.
+Qed.
+
+(* the attribute path the emitted code reads: component by component, reserved ones suffixed *)
+Lemma disambiguated_components raw :
+  splitc dot (disambiguated raw) = map suffix_reserved (splitc dot raw).
+Proof.
+  unfold disambiguated. destruct (splitc_shape dot raw) as (x & l & Hs & _ & Hx & Hl). rewrite Hs.
+  cbn [map joinc]. apply splitc_joinc; [now apply suffix_no_dot|]. clear Hs.
+  induction Hl as [|y l Hy Hl IH]; [constructor|]. constructor; [now apply suffix_no_dot|exact IH].
+Qed.
+
+Lemma implicit_pairs_l (m : method) (u : list upart) :
+  m_explicit m = None -> m_client_streaming m = false ->
+  first_nonempty (potential_verbs (m_http m)) = Some (uri_print u) -> uri_ok u = true ->
+  field_headers (m_http m) = uri_vars u /\
+  (forall req, header_of m req =
+     Ok (match uri_vars u with
+         | [] => None
+         | vars => Some (to_routing_header (map (fun raw => (raw, req (disambiguated raw))) vars))
+         end)) /\
+  (forall raw, splitc dot (disambiguated raw) = map suffix_reserved (splitc dot raw)).
+Proof.
+  intros He Hs Hp Hu.
+  assert (Hfh : field_headers (m_http m) = uri_vars u).
+  { unfold field_headers. rewrite Hp. now apply scan_uri. }
+  split; [exact Hfh|]. split; [|exact disambiguated_components].
+  intro req. unfold header_of, emit_metadata. rewrite He, Hfh, Hs. destruct (uri_vars u) as [|x l]; [reflexivity|].
+  cbv iota beta. rewrite map_map. reflexivity.
+Qed.
+
+(* ================================================================ sync / asyncio / REST *)
+Local Opaque routing_key.
+Definition no_routing_key (user : md) : bool := forallb (fun kv => negb (String.eqb (fst kv) routing_key)) user.
+
+Lemma observe_none user : no_routing_key user = true -> observe user = [].
+Proof.
+  unfold observe. induction user as [|[a b] user IH]; simpl; intro H; [reflexivity|].
+  apply andb_true_iff in H as [Ha Hu]. apply negb_true_iff in Ha. rewrite Ha. now apply IH.
+Qed.
+
+Lemma observe_app a b : observe (a ++ b)%list = (observe a ++ observe b)%list.
+Proof. unfold observe. now rewrite filter_app, map_app. Qed.
+
+Lemma dict_set_other k v : String.eqb k routing_key = false -> forall d,
+  no_routing_key d = true -> no_routing_key (dict_set k v d) = true.
+Proof.
+  intros Hk. induction d as [|[a b] d IH]; simpl; intro H.
+  - now rewrite Hk.
+  - apply andb_true_iff in H as [Ha Hd]. destruct (String.eqb k a) eqn:E; simpl.
+    + rewrite Hk. simpl. exact Hd.
+    + rewrite Ha. simpl. now apply IH.
+Qed.
+
+Lemma dict_fold_other : forall l d, no_routing_key l = true -> no_routing_key d = true ->
+  no_routing_key (fold_left (fun d kv => dict_set (fst kv) (snd kv) d) l d) = true.
+Proof.
+  induction l as [|[a b] l IH]; intros d Hl Hd; simpl; [exact Hd|].
+  simpl in Hl. apply andb_true_iff in Hl as [Ha Hl]. apply negb_true_iff in Ha.
+  apply IH; [exact Hl|]. now apply dict_set_other.
+Qed.
+
+Lemma dict_set_fresh v : forall d, no_routing_key d = true ->
+  observe (dict_set routing_key v d) = [v].
+Proof.
+  induction d as [|[a b] d IH]; simpl; intro H; [reflexivity|].
+  apply andb_true_iff in H as [Ha Hd]. apply negb_true_iff in Ha.
+  rewrite String.eqb_sym in Ha. rewrite Ha. rewrite String.eqb_sym in Ha.
+  unfold observe. simpl. rewrite Ha. apply (IH Hd).
+Qed.
+
+Lemma fold_left_app_dict l x d :
+  fold_left (fun d kv => dict_set (fst kv) (snd kv) d) (l ++ [x])%list d =
+  dict_set (fst x) (snd x) (fold_left (fun d kv => dict_set (fst kv) (snd kv) d) l d).
+Proof. now rewrite fold_left_app. Qed.
+
+Lemma agree_l (m : method) (req : request) (user : md) (h : option string) :
+  emit_sync m = emit_async m /\
+  (header_of m req = Ok h -> no_routing_key user = true ->
+   seen_grpc user h = match h with Some v => [v] | None => [] end /\
+   seen_rest user h = seen_grpc user h).
+Proof.
+  split; [reflexivity|]. intros _ Hu. unfold seen_grpc, seen_rest, with_routing. destruct h as [v|].
+  - rewrite observe_app, (observe_none user Hu). split; [reflexivity|].
+    unfold dict_of. rewrite fold_left_app_dict. simpl fst. simpl snd.
+    cbn [app observe filter map fst snd]. rewrite String.eqb_refl. cbn [map snd].
+    apply dict_set_fresh. now apply dict_fold_other.
+  - rewrite (observe_none user Hu). split; [reflexivity|].
+    apply observe_none. unfold dict_of. now apply dict_fold_other.
+Qed.
+
+(* ================================================================ the whole explicit block against the AIP reading *)
+Inductive sparam := SPlain (field : string) | STmpl (field : string) (t : tmpl).
+Definition sp_field (sp : sparam) : string := match sp with SPlain f => f | STmpl f _ => f end.
+Definition sparam_param (sp : sparam) : param :=
+  match sp with SPlain f => Build_param f "" | STmpl f t => Build_param f (tmpl_print t) end.
+Definition sparam_ok (sp : sparam) : bool :=
+  match sp with
+  | SPlain _ => true
+  | STmpl _ t => aip_class t && negb (t_short t) && repr_fits ("^" ++ rx_print (rx_of t) ++ "$")
+  end.
+Definition sparam_block (sp : sparam) : block :=
+  match sp with
+  | SPlain f => BPlain (disambiguated f) f
+  | STmpl f t => BRegex ("^" ++ rx_print (rx_of t) ++ "$") (disambiguated f) (t_key t)
+  end.
+(* AIP-4222: without a template the whole non-empty field under its own name; with one, the named segment *)
+Definition spec_contribution (sp : sparam) (v : string) : option (string * string) :=
+  match sp with
+  | SPlain f => if is_empty v then None else Some (f, v)
+  | STmpl _ t => aip_contribution t v
+  end.
+Definition spec_header (sps : list sparam) (req : request) : option string :=
+  match dict_of (somes (map (fun sp => spec_contribution sp (req (disambiguated (sp_field sp)))) sps)) with
+  | [] => None
+  | d => Some (to_routing_header d)
+  end.
+
+Lemma sparam_ok_class sp : sparam_ok sp = true -> match sp with SPlain _ => True | STmpl _ t => aip_class t = true end.
+Proof. destruct sp as [f|f t]; simpl; [trivial|]. intro H. apply andb_true_iff in H as [H _]. now apply andb_true_iff in H as [H _]. Qed.
+
+Lemma contributions_spec req : forall sps,
+  forallb sparam_ok sps = true ->
+  forallb (fun sp => nl_free (req (disambiguated (sp_field sp)))) sps = true ->
+  contributions (map sparam_param sps) req =
+  Ok (map (fun sp => spec_contribution sp (req (disambiguated (sp_field sp)))) sps).
+Proof.
+  unfold contributions. induction sps as [|sp sps IH]; intros Hok Hnl; [reflexivity|].
+  simpl in Hok, Hnl. apply andb_true_iff in Hok as [Hsp Hok]. apply andb_true_iff in Hnl as [Hv Hnl].
+  cbn [map map_res]. rewrite (IH Hok Hnl). apply sparam_ok_class in Hsp.
+  destruct sp as [f|f t]; cbn [sparam_param sp_field p_field spec_contribution] in *.
+  - reflexivity.
+  - destruct (routing_contribution_correct_l t f _ Hsp Hv) as [Hcontr _]. now rewrite Hcontr.
+Qed.
+
+Lemma emit_spec : forall sps, forallb sparam_ok sps = true ->
+  map_res emit_param (map sparam_param sps) = Ok (map sparam_block sps).
+Proof.
+  induction sps as [|sp sps IH]; intro Hok; [reflexivity|].
+  simpl in Hok. apply andb_true_iff in Hok as [Hsp Hok]. cbn [map map_res]. rewrite (IH Hok).
+  destruct sp as [f|f t]; cbn [sparam_param sparam_block].
+  - reflexivity.
+  - cbn [sparam_ok] in Hsp. apply andb_true_iff in Hsp as [Hsp Hfit]. apply andb_true_iff in Hsp as [Hc Hns].
+    apply negb_true_iff in Hns.
+    destruct (routing_contribution_correct_l t f "" Hc eq_refl) as [_ Hemit]. rewrite Hemit, Hns, Hfit. reflexivity.
+Qed.
+
+Lemma explicit_header_spec_l m sps req :
+  sps <> [] ->
+  m_explicit m = Some (map sparam_param sps) -> m_client_streaming m = false ->
+  forallb sparam_ok sps = true ->
+  forallb (fun sp => nl_free (req (disambiguated (sp_field sp)))) sps = true ->
+  emit_metadata m = Ok (EExplicit (map sparam_block sps)) /\
+  header_of m req = Ok (spec_header sps req).
+Proof.
+  intros Hne He Hs Hok Hnl.
+  assert (Hem : emit_metadata m = Ok (EExplicit (map sparam_block sps))).
+  { unfold emit_metadata. rewrite He, Hs. rewrite (emit_spec sps Hok). destruct sps; [congruence|reflexivity]. }
+  split; [exact Hem|].
+  rewrite (header_explicit m _ req _ _ He Hs Hem (contributions_spec req sps Hok Hnl)). reflexivity.
 Qed.
